@@ -318,7 +318,7 @@ func runC11(w *mc.Worker) {
 		permBudget = 3
 	}
 	w.Stage(fmt.Sprintf("map-order-P%d", permBudget), fmt.Sprintf("%d scenarios: every map iteration order of the interpreter (<= 4 keys, <= %d non-identity picks per execution), both against the canonical order and a repetition", len(scs), permBudget), func() {
-		w.Outer("map-order/scenario", 0, func(o *mc.Explorer) {
+		w.Outer(fmt.Sprintf("map-order-P%d/scenario", permBudget), 0, func(o *mc.Explorer) {
 			si := o.Choose(len(scs))
 			sc := scs[si]
 			if !w.Mine(fmt.Sprint("perm", si)) {
